@@ -12,13 +12,18 @@ from runtime.sig import repr_value
 
 def run(tier, seed):
     rep = Report("C09", tier, seed, "proof", "./vf check C09 --tier " + tier)
-    rep.add_case_results(run_cases([("contracts.dispatch", "make_dispatch", ("is_eof",)), ("contracts.dispatch", "make_dispatch", ("forms",))]), "T1")
+    from contracts import leaf
+
+    # the null-terminated readers leave the stream just past the terminator, for every length (inductive contracts); arrays with a
+    # symbolic count consume count*size
+    arr = [sp for sp in leaf.array_specs(tier) if sp[1] != "make_array" or sp[2][2] in ("read_array_n", "read_0")]
+    rep.add_case_results(run_cases([("contracts.dispatch", "make_dispatch", ("is_eof",)), ("contracts.dispatch", "make_dispatch", ("forms",))] + arr), "T1")
     progs = programs_for(tier, seed)
     run_pipeline(rep, progs, ["C09"])
     # input kinds x call forms on the whole family (executed: the dispatch itself is proved above on representative types)
     from t2 import sets
 
-    b = Bounded("input-kinds-and-call-forms", "family F singles + dynamic unions x {bytes, bytearray, memoryview, BytesIO at 0, BytesIO at an offset (3; 16 for aligned definitions)} x {T(x), T.read, T.reads, cs.read}")
+    b = Bounded("input-kinds-and-call-forms", "family F singles + dynamic unions x {bytes, bytearray, memoryview, BytesIO at 0, BytesIO at an offset (3; 16 for aligned definitions)} x {T(x), T.read, T.reads, cs.read}; bare scalar/enum/array types x byte-order spellings {<,>,!,@,=} x the same input kinds and call forms")
     for p in sets.singles(endians=("<",), aligns=(False, True)) + sets.dynamic_unions()[::2]:
         try:
             cs = p.load(True)
@@ -42,6 +47,35 @@ def run(tier, seed):
         ok = all(v == vals[0] for v in vals)
         bad = {f"{k[0]}/{k[1]}": str(v)[:120] for k, v in results.items() if v != vals[0]}
         b.case(p.key(), ok, observed=f"differs from bytes/T(x) = {str(vals[0])[:120]}: {bad}", inputs={"definition": p.text.split(chr(10))[-1], "align": p.align})
+    # bare (top-level) types under every byte-order spelling, native ones included: only consistency is asked here
+    from dissect.cstruct import cstruct
+
+    data = bytes((i * 37 + 5) % 251 + 1 for i in range(40)) + bytes(6)
+    for endian in ("<", ">", "!", "@", "="):
+        cs = cstruct(endian=endian)
+        cs.load("enum E24 : int24 { A = 1 }; enum E16 : uint16 { B = 1 }; struct S { uint24 a; int48 b; };")
+        for tname in ("uint8", "int16", "uint32", "int64", "int24", "uint24", "int48", "uint48", "int128", "uint128", "float", "double", "char",
+                      "wchar", "uleb128", "ileb128", "E24", "E16", "S", "uint24[2]", "int16[3]", "char[4]", "wchar[2]", "E24[2]", "uint16[]", "char[]"):
+            base, _, dim = tname.partition("[")
+            T = getattr(cs, base)
+            if dim:
+                T = T[int(dim[:-1]) if dim[:-1] else None]
+            off = 3
+            results = {}
+            for kind, mk in (("bytes", lambda: data), ("bytearray", lambda: bytearray(data)), ("memoryview", lambda: memoryview(data)),
+                             ("stream", lambda: io.BytesIO(data)), ("stream@offset", lambda: _at(io.BytesIO(bytes(off) + data), off))):
+                for form, fn in (("T(x)", lambda x: T(x)), ("T.read", lambda x: T.read(x)), ("T.reads", lambda x: T.reads(x))):
+                    if form == "T.reads" and kind.startswith("stream"):
+                        continue
+                    try:
+                        v = fn(mk())
+                        results[(kind, form)] = repr_value(v)
+                    except Exception as e:  # noqa: BLE001
+                        results[(kind, form)] = ("raises", type(e).__name__)
+            vals = list(results.values())
+            ok = all(v == vals[0] for v in vals)
+            bad = {f"{k[0]}/{k[1]}": str(v)[:120] for k, v in results.items() if v != vals[0]}
+            b.case(f"bare:{tname}{endian}", ok, observed=f"differs from bytes/T(x) = {str(vals[0])[:120]}: {bad}", inputs={"type": tname, "endian": endian})
     b.add_to(rep)
     rep.extra["rule"] = T2_RULE
     rep.extra["explanation"] = (
